@@ -35,7 +35,7 @@ CLAIMS: dict[str, dict] = {
     "C04": dict(
         technique="foreign-producer streams from a descriptor-built reference encoder (each validated by the reference decoder) pushed through the parser source; descriptor-driven exhaustiveness of dispatch tables",
         text="A reference encoder enumerates legal producer choices (4 eviction policies, zero/explicit/alternating ids, 3 IRI split strategies, repeated terms on/off, lazy/early/redundant entries, 4 framings incl. empty frames with metadata and repeated options rows, delimited or not, namespaces, many datatypes, falsy literal graph names) over statement sequences that force hits, misses and evictions; "
-        "every stream is proven valid by jstat.refdec and must decode through pyjelly's parser source to the statements it denotes. Row/term dispatch tables are exhaustive w.r.t. the descriptor. Not decided: an actual third-party encoder end to end.",
+        "every stream is proven valid by jstat.refdec and must decode through pyjelly's parser source to the statements it denotes. Row/term dispatch tables are exhaustive w.r.t. the descriptor; a feature an integration lacks (quoted triples through rdflib) is refused, not faked. Thorough tier: the full product of 2592 producer policies. Not decided: an actual third-party encoder end to end.",
         design_ref="DESIGN.md §5 C04, §11.2",
     ),
     "C05": dict(
